@@ -467,8 +467,15 @@ pub fn run(ctx: &Ctx) -> Report {
     rep.evidence.assumptions = vec![
         "syn 2 (full) is the fast proxy for Rust's expression grammar; a sample is cross-validated against rustc's `$e:expr` matcher and syn-vs-rustc disagreements are excluded".into(),
     ];
-    let n = ctx.tier.pick(200_000usize, 1_500_000);
-    let mut runner = ctx.runner(0);
+    // (rounds bound the memory of the value trees; each round has its own seeded runner)
+    let n = 200_000usize;
+    let rounds = ctx.tier.pick(1u32, 8);
+    let sample_n = ctx.tier.pick(1000usize, 20_000);
+    let mut sample: Vec<String> = vec![];
+    let mut seen = std::collections::HashSet::new();
+    let mut bad: Vec<(String, String, String, String)> = vec![];
+    for round in 0..rounds {
+    let mut runner = ctx.runner(round);
     let dice = proptest::collection::vec(proptest::num::u16::ANY, 200..=200);
     let cases: Vec<ListCase> = draw(&mut runner, &dice, n).into_iter().map(|t| build(&mut Dice::new(t.current()))).collect();
     let results: Vec<(Verdict, Option<(String, String, String)>, usize)> = cases
@@ -484,8 +491,6 @@ pub fn run(ctx: &Ctx) -> Report {
             (v, extra, c.elems.len())
         })
         .collect();
-    let mut seen = std::collections::HashSet::new();
-    let mut bad: Vec<(String, String, String, String)> = vec![];
     for (i, (v, extra, _)) in results.iter().enumerate() {
         let c = &cases[i];
         let text = c.text();
@@ -509,17 +514,28 @@ pub fn run(ctx: &Ctx) -> Report {
             if c.elems.iter().any(|(a, _)| a.is_some()) {
                 rep.evidence.label("has_alias");
             }
-            if i % (n / 8).max(1) == 0 {
+            if round == 0 && i % (n / 8).max(1) == 0 {
                 rep.evidence.sample(json!(text));
             }
         }
     }
+    for (i, c) in cases.iter().enumerate() {
+        if sample.len() >= sample_n {
+            break;
+        }
+        if c.elems.iter().all(|(a, _)| a.is_none()) && !c.elems.is_empty() && matches!(results[i].0, Verdict::Ok(_) | Verdict::Bad { .. }) {
+            sample.push(c.text());
+        }
+    }
+    }
     // minimise: drop elements / shrink by keeping the failing kind
     let mut reported = std::collections::HashSet::new();
     bad.sort_by_key(|b| b.1.len());
-    for (what, text, e, o) in bad.into_iter() {
+    // (the defect-model attribution re-parses each list under up to seven rewrites: done in parallel)
+    let sigs: Vec<Option<String>> = bad.par_iter().map(|(what, text, e, o)| sig_for(what, text, e, o)).collect();
+    for ((what, text, e, o), sig) in bad.into_iter().zip(sigs) {
         let kind = what.split(" for `").next().unwrap_or(&what).to_string();
-        let sig = resolve_sig(ctx, sig_for(&what, &text, &e, &o));
+        let sig = resolve_sig(ctx, sig);
         let key = format!("{kind}|{sig:?}");
         if let Some(s) = &sig {
             if ctx.is_known(s) {
@@ -555,16 +571,6 @@ pub fn run(ctx: &Ctx) -> Report {
     }
 
     // rustc cross-validation of the proxy on a sample (alias-free lists)
-    let sample_n = ctx.tier.pick(1000usize, 20_000);
-    let mut sample: Vec<String> = vec![];
-    for (i, c) in cases.iter().enumerate() {
-        if sample.len() >= sample_n {
-            break;
-        }
-        if c.elems.iter().all(|(a, _)| a.is_none()) && !c.elems.is_empty() && matches!(results[i].0, Verdict::Ok(_) | Verdict::Bad { .. }) {
-            sample.push(c.text());
-        }
-    }
     sample.sort();
     sample.dedup();
     match rustc_split(ctx, &sample) {
